@@ -5,7 +5,11 @@ import (
 	"encoding/json"
 	"errors"
 	"fmt"
+	"reflect"
+	"strconv"
 	"unicode/utf8"
+
+	"rivaas.dev/binding"
 
 	riverrors "rivaas.dev/errors"
 	"rivaas.dev/validation"
@@ -206,6 +210,20 @@ func (e errT) valErr() validation.Error {
 	return v
 }
 
+func (e errT) bindErr() *binding.BindError {
+	b := &binding.BindError{Field: string(e.Code), Source: binding.SourceQuery, Value: string(e.Msg), Type: reflect.TypeOf(0)}
+	if e.Trunc {
+		b.Source = binding.SourceJSON
+		b.Reason = "must be a whole number"
+	}
+	if e.Inner != nil {
+		b.Err = e.Inner.build()
+	} else if b.Reason == "" {
+		b.Err = strconv.ErrSyntax
+	}
+	return b
+}
+
 // build makes the real Go error value.
 func (e errT) build() error {
 	switch e.Kind {
@@ -234,6 +252,24 @@ func (e errT) build() error {
 	case "fielderr":
 		f := e.Fields[0]
 		return validation.FieldError{Path: f.Path, Code: f.Code, Message: f.Message}
+	// the binding package's own error types (what c.Bind returns and handlers pass to Fail)
+	case "binderr":
+		return e.bindErr()
+	case "unknownfield":
+		fs := []string{"extra"}
+		if len(e.Fields) > 0 {
+			fs = nil
+			for _, f := range e.Fields {
+				fs = append(fs, f.Path)
+			}
+		}
+		return &binding.UnknownFieldError{Fields: fs}
+	case "multibind":
+		m := &binding.MultiError{}
+		for _, k := range e.Kids {
+			m.Add(k.bindErr())
+		}
+		return m
 	}
 	panic("unknown error kind " + e.Kind)
 }
